@@ -371,6 +371,9 @@ ENGINE_SPECS = [
     [{"tasks": ["S"]}, {"reqs": [0], "tasks": ["S"]}, {"reqs": [0], "enabled": False}, {"reqs": [1, 2], "tasks": ["S"]}],
     [{"tasks": ["S", "P"]}],
     [{"tasks": ["C"]}, {"reqs": [0]}],
+    # upstream completions that also write the downstream join's tracking context (auto-commit store outside the block)
+    [{"tasks": ["S"]}, {"tasks": ["S"]}, {"reqs": [0, 1], "join": "DISCRIMINATOR", "tasks": ["S"]}],
+    [{"tasks": ["S"]}, {"tasks": ["F"], "cont": True}, {"reqs": [0, 1], "join": "N_OF_M", "threshold": 1, "tasks": ["S"]}],
 ]
 
 
